@@ -30,6 +30,8 @@ size_t fakefd_live();
 extern volatile uint64_t g_sanitizer_reports;
 extern volatile uint64_t g_alloc_bytes, g_alloc_max, g_alloc_calls, g_alloc_refused;
 extern volatile bool g_meter;
+extern long g_live_blocks;  // blocks obtained from operator new and not yet returned (always counted)
+inline long live_blocks() { return __atomic_load_n(&g_live_blocks, __ATOMIC_RELAXED); }
 
 struct Meter {
   Meter() { g_alloc_bytes = 0; g_alloc_max = 0; g_alloc_calls = 0; g_alloc_refused = 0; g_meter = true; }
